@@ -11,7 +11,7 @@ run() { # name patch prop
   elif [ "$rc" = 1 ]; then verdict="detected"; elif [ "$rc" = 0 ]; then verdict="MISSED"; else verdict="harness-error"; fi
   classes=$(echo "$res" | sed -n 's/^  class=\([^ ]*\).*/\1/p' | sort -u | head -6 | tr '\n' ' ')
   [ $first = 1 ] || echo "," >> $tmp; first=0
-  printf '{"mutant":"%s","property":"%s","verdict":"%s","classes":"%s"}' "$1" "$3" "$verdict" "$classes" >> $tmp
+  python3 -c 'import json,sys; print(json.dumps({"mutant":sys.argv[1],"property":sys.argv[2],"verdict":sys.argv[3],"classes":sys.argv[4]}),end="")' "$1" "$3" "$verdict" "$classes" >> $tmp
   echo "MUTANT $1 $3 $verdict $classes"
 }
 for f in tools/mutants/*.patch; do
